@@ -1489,6 +1489,38 @@ fn has_overflowing_2x2_transforms(
     overflow_info.is_some()
 }
 
+impl GlyphInstance {
+    /// Names the first value that is NaN or infinite, if any.
+    fn non_finite_value(&self) -> Option<&'static str> {
+        if !self.width.is_finite() {
+            return Some("advance width");
+        }
+        if self.height.is_some_and(|v| !v.is_finite())
+            || self.vertical_origin.is_some_and(|v| !v.is_finite())
+        {
+            return Some("advance height or vertical origin");
+        }
+        if self
+            .components
+            .iter()
+            .any(|c| c.transform.as_coeffs().iter().any(|v| !v.is_finite()))
+        {
+            return Some("component transform");
+        }
+        let finite = |p: &kurbo::Point| p.x.is_finite() && p.y.is_finite();
+        let bad_point = self.contours.iter().flat_map(|c| c.elements()).any(|el| {
+            use kurbo::PathEl::*;
+            match el {
+                MoveTo(p) | LineTo(p) => !finite(p),
+                QuadTo(a, b) => !finite(a) || !finite(b),
+                CurveTo(a, b, c) => !finite(a) || !finite(b) || !finite(c),
+                ClosePath => false,
+            }
+        });
+        bad_point.then_some("outline coordinate")
+    }
+}
+
 impl Glyph {
     pub fn new(
         name: GlyphName,
@@ -1509,6 +1541,11 @@ impl Glyph {
             }
             (Some(pos), None) => pos.to_owned(),
         };
+
+        // NaN or infinity can never be drawn; curve code downstream does not terminate on them
+        if let Some(what) = instances.values().find_map(GlyphInstance::non_finite_value) {
+            return Err(BadGlyph::new(name, BadGlyphKind::NonFiniteValue(what)));
+        }
 
         let has_consistent_2x2_transforms = has_consistent_2x2_transforms(&name, &instances);
         let has_overflowing_2x2_transforms = has_overflowing_2x2_transforms(&name, &instances);
